@@ -189,6 +189,10 @@ func suiteResp(r *rng, n int) {
 		} else {
 			uh["Cache-Control"] = []string{"no-store"}
 		}
+		if cr.chance(30) {
+			// the upstream is itself a cache and states the age of what it hands out
+			uh["Age"] = []string{itoa(int64(1 + cr.intn(20)))}
+		}
 		uh["Etag"] = []string{fmt.Sprintf("\"e%d\"", i)}
 		uh["X-Multi"] = []string{"a", "b"}
 		uh["Date"] = []string{"Mon, 01 Jan 2024 00:00:00 GMT"}
@@ -292,7 +296,8 @@ func emitRespObs(path string, i int, ae string, w *httptest.ResponseRecorder, bo
 	cl := w.Header().Get("Content-Length")
 	clOK := cl == itoa(int64(len(sent)))
 	emit("resp", path, itoa(int64(i)), hx(ae), "=>", itoa(int64(w.Code)), hx(ce), b2s(bodyOK), b2s(same), b2s(clOK),
-		hx(w.Header().Get("X-Status")), subHeader(w.Header(), "Content-Length", "Content-Encoding", "Age", "X-Status"), itoa(int64(calls)), itoa(int64(len(sent))))
+		hx(w.Header().Get("X-Status")), subHeader(w.Header(), "Content-Length", "Content-Encoding", "Age", "X-Status"), itoa(int64(calls)), itoa(int64(len(sent))),
+		hx(strings.Join(w.Header()["Age"], ",")))
 }
 
 var _ = sort.Strings
